@@ -299,6 +299,17 @@ class Mini:
                 if all(isinstance(v, (int, float)) and not isinstance(v, bool) for v in kw.values()):
                     return _dt.timedelta(**kw)  # the checker's own value
                 raise Unsupported(f"{t}: non-numeric timedelta argument")
+            if (self.repo.qual(self.module, e.func) or "") == "datetime.time" and len(e.args) <= 2 and all(k.arg in ("hour", "minute", "second") for k in e.keywords):
+                import datetime as _dt
+
+                args = [self.ev(a_, env) for a_ in e.args]
+                kw = {k.arg: self.ev(k.value, env) for k in e.keywords}
+                if all(isinstance(v, int) and not isinstance(v, bool) for v in list(args) + list(kw.values())):
+                    try:
+                        return _dt.time(*args, **kw)
+                    except ValueError:
+                        raise _PyRaise("ValueError")
+                raise Unsupported(f"{t}: non-integer time argument")
             if isinstance(e.func, ast.Attribute) and e.func.attr == "total_seconds" and not e.args and not e.keywords:
                 import datetime as _dt
 
